@@ -680,25 +680,56 @@ void j_floor_ceil(Ctx & c, int64_t x, int64_t, int64_t)
     if(!model_isnan(g.v) && !model_isnan(fn.v) && g.v != -fn.v) c.violation("ceil/not-minus-floor-minus", (int)ci, x, 0, 0, i2s(g.v), i2s(-fn.v));
     }
   }
-void c15_init() { FLOOR = resolve("floor"); CEIL = resolve("ceil"); }
+// The same relations evaluated the way a user program evaluates them: with the library's own comparison, negation, + - and
+// += -= operators (a defect in one of those breaks "floor(x) <= x < floor(x)+1" as observed by every caller)
+Fn R_LE, R_LT, R_EQ, R_NEG, R_ADD, R_SUB, R_ADDEQ, R_SUBEQ;
+void j_floor_ceil_rel(Ctx & c, int64_t x, int64_t, int64_t)
+  {
+  const i128 LIM = (((i128)1 << 47) - 1) * 65536;
+  i128 ax = x < 0 ? -(i128)x : (i128)x;
+  if(!(ax < LIM)) return;
+  c.stratum("relations-with-library-operators");
+  for(size_t ci = 0; ci < g_cfgs.size(); ++ci)
+    {
+    auto call = [&](Fn & f, int64_t p, int64_t q, bool & bad) { CallRes r = c.call(f.f[ci], p, q); if(r.sig) { c.signal_event((int)ci, f.entry.c_str(), p, q, r.sig); bad = true; return (int64_t)0; } return r.v; };
+    bool bad = false;
+    int64_t fl = call(FLOOR, x, 0, bad), ce = call(CEIL, x, 0, bad); if(bad || model_isnan(fl) || model_isnan(ce)) continue;
+    auto fail = [&](const char * what, int64_t got) { c.violation(std::string("floor_ceil/evaluated-with-library-operators/") + what, (int)ci, x, 0, 0, i2s(got), "true"); };
+    if(call(R_LE, fl, x, bad) != 1) fail("floor(x)<=x", 0);
+    if(call(R_LE, x, ce, bad) != 1) fail("x<=ceil(x)", 0);
+    int64_t up = call(R_ADD, fl, ONE, bad), dn = call(R_SUB, ce, ONE, bad), up2 = call(R_ADDEQ, fl, ONE, bad), dn2 = call(R_SUBEQ, ce, ONE, bad);
+    if(!model_isnan(up) && call(R_LT, x, up, bad) != 1) fail("x<floor(x)+1", up);
+    if(!model_isnan(dn) && call(R_LT, dn, x, bad) != 1) fail("ceil(x)-1<x", dn);
+    if(up2 != up) fail("floor(x)+=1-equals-floor(x)+1", up2);
+    if(dn2 != dn) fail("ceil(x)-=1-equals-ceil(x)-1", dn2);
+    int64_t nx = call(R_NEG, x, 0, bad); int64_t fnx = call(FLOOR, nx, 0, bad); int64_t nfnx = call(R_NEG, fnx, 0, bad);
+    if(!bad && call(R_EQ, ce, nfnx, bad) != 1) fail("ceil(x)==-floor(-x)", nfnx);
+    }
+  }
+void c15_init()
+  {
+  FLOOR = resolve("floor"); CEIL = resolve("ceil");
+  R_LE = resolve("cmp_le"); R_LT = resolve("cmp_lt"); R_EQ = resolve("cmp_eq"); R_NEG = resolve("neg"); R_ADD = resolve("add_ff"); R_SUB = resolve("sub_ff"); R_ADDEQ = resolve("addeq_ff"); R_SUBEQ = resolve("subeq_ff");
+  }
 extern Property P_C15;
 void c15_run(Ctx & c)
   {
-  const Check & K = P_C15.checks[0];
+  const Check & K = P_C15.checks[0], & REL = P_C15.checks[1];
   int64_t W = c.thorough ? (1ll << 24) : (1ll << 21);
-  for(int64_t x = -W + c.shard; x <= W; x += c.nshards) c.run_check(K, x);
+  for(int64_t x = -W + c.shard; x <= W; x += c.nshards) { c.run_check(K, x); if((x & 63) == 0 || (x & 63) == 17) c.run_check(REL, x); }
   int64_t NI = c.thorough ? (1ll << 22) : (1ll << 18);
   for(int64_t n = -NI + c.shard; n <= NI; n += c.nshards) c.run_check(K, n * 65536);
   uint64_t idx = 0;
-  for(int64_t x : lattice()) if(c.mine(idx++)) { c.run_check(K, x); c.run_check(K, x & ~0xffffll); }
+  for(int64_t x : lattice()) if(c.mine(idx++)) { c.run_check(K, x); c.run_check(K, x & ~0xffffll); c.run_check(REL, x); c.run_check(REL, x & ~0xffffll); }
   const int64_t LIM = (int64_t)((((i128)1 << 47) - 1) * 65536);
   for(int64_t d = c.shard; d < 300000; d += c.nshards) { c.run_check(K, LIM - 1 - d); c.run_check(K, -(LIM - 1 - d)); }
   uint64_t n = c.share(c.n(1000000, 100000000));
-  for(uint64_t i = 0; i < n; ++i) { int64_t x = c.rng.logu(); c.run_check(K, x); if((i & 7) == 0) c.run_check(K, x & ~0xffffll); }
+  for(uint64_t i = 0; i < n; ++i) { int64_t x = c.rng.logu(); c.run_check(K, x); if((i & 7) == 0) { c.run_check(K, x & ~0xffffll); c.run_check(REL, x); c.run_check(REL, x & ~0xffffll); } }
   }
 Property P_C15 = { "C15", c15_init, c15_run,
-  { { "floor_ceil", j_floor_ceil, "floor(x), ceil(x), ceil(x) == -floor(-x); a raw with |x| < 2^47-1" } },
-  { "integer-argument", "negative-fraction", "positive-fraction" },
+  { { "floor_ceil", j_floor_ceil, "floor(x), ceil(x), ceil(x) == -floor(-x); a raw with |x| < 2^47-1" },
+    { "relations", j_floor_ceil_rel, "floor(x) <= x < floor(x)+1, ceil(x)-1 < x <= ceil(x), ceil(x) == -floor(-x) evaluated with the library's own <=, <, ==, unary -, +, -, +=, -=; a raw" } },
+  { "relations-with-library-operators", "integer-argument", "negative-fraction", "positive-fraction" },
   "integer-valued argument, or within 3.0 of the +-(2^47-1) domain limit; distinct by x",
   { "every raw x in [-2^21, 2^21]", "every integer n*65536 with |n| <= 2^18" }, { "every raw x in [-2^24, 2^24]", "every integer n*65536 with |n| <= 2^22" } };
 Registrar R_C15(&P_C15);
